@@ -473,6 +473,22 @@ def rf60(run):
                           % ('an exported' if exported else 'a non-exported', texts[0], texts[1],
                              'the C compiler rejects a static definition after a non-static declaration' if not exported
                              else 'the exported function loses external linkage'))
+    # a forward that reaches the function through an export of the same name still declares it
+    items = [{'->item_type': it['MIR_forward_item'], 'name': 1, '->ref_def': 2},
+             {'->item_type': it['MIR_export_item'], 'name': 1, '->ref_def': 3},
+             {'->item_type': it['MIR_func_item'], 'name': 1, '->export_p': 1, '->u.func': 7}]
+    ex, heap = _item_exec(tu, items, stop_at_decl=True)
+    try:
+        ex.run(f.body, {'item': 1})
+    except _Stop:
+        pass
+    n += 1
+    ok = ex.text().endswith('D')
+    run.ob(rule, ('forward through export',), ok, {'printed for `forward g; export g`': ex.text()[:40]})
+    if not ok:
+        run.violation(rule, f, 'forward through an export', 'for `forward g` followed by `export g` the forward item refers to the export item, not '
+                      'to the function: out_item prints no declaration of g and a call of g in front of its definition is rejected by the C '
+                      'compiler (`g` undeclared)')
     return n
 
 
@@ -550,6 +566,31 @@ def rf61(run):
                 continue
             for k in (0, 1):
                 table.setdefault((k, types[k]), {}).setdefault(parts[k], []).append((nres, types))
+    # an integer immediate as argument: C passes an unsuffixed constant in a variadic position as a 32-bit int
+    for mode_nm, want in (('MIR_OP_INT', 'int64_t'), ('MIR_OP_UINT', 'uint64_t')):
+        env = {'insn->code': codes['MIR_CALL'], 'code': codes['MIR_CALL'], 'insn->nops': 4, 'nops': 4,
+               'ops[0].mode': modes['MIR_OP_REF'], 'ops[0].u.ref': 1, 'proto': 2, 'ops[1].mode': modes['MIR_OP_REG'],
+               'ops[2].mode': modes['MIR_OP_REG'], 'ops[3].mode': modes[mode_nm], 'ops[0].u.ref->u.proto': 2}
+        heap = {1: {'->item_type': dict(tu.enum('MIR_item_type_t'))['MIR_proto_item'], '->u.proto': 2},
+                2: {'->nres': 0, '->res_types[0]': ty['MIR_T_I64'], '->args': 3, '->vararg_p': 1}}
+        ex = PE.PrintExec(tu, heap, {'VARR_MIR_var_tget': lambda a, e, x: {'type': ty['MIR_T_P'], 'size': 0, 'name': 1},
+                                     'VARR_MIR_var_tlength': lambda a, e, x: 1,
+                                     'MIR_all_blk_type_p': lambda a, e, x: 0, 'MIR_blk_type_p': lambda a, e, x: 0},
+                          {'out_op': lambda a, e, x: '$'})
+        for st in stmts:
+            r = ex.run(st, env)
+            if r in ('break', 'return'):
+                break
+        txt = ' '.join(ex.text().split())
+        args_txt = txt[txt.rfind('(', 0, txt.rfind('$')) if False else txt.find(') (') + 3:] if ') (' in txt else txt
+        last = args_txt.split(',')[-1]
+        n += 1
+        ok = want in last
+        run.ob(rule, ('immediate', mode_nm), ok, {'argument mode': mode_nm, 'text': txt})
+        if not ok:
+            run.violation(rule, f, 'integer immediate argument (%s)' % mode_nm, 'an integer immediate passed in the variadic part of a call is '
+                          'printed as `%s` without a (%s) cast: C passes it as a 32-bit int, MIR as a 64-bit value (printf ("%%ld", -1) '
+                          'prints 4294967295 in the translation)' % (last.strip().rstrip(');'), want), line=stmts[0]['l'])
     for (k, t), forms in sorted(table.items()):
         n += 1
         ok = len(forms) == 1
